@@ -305,31 +305,24 @@ func pages(input OmegaInput) (output OmegaOutput) {
 	}
 
 	// otherwise : ok
-	// u_v
-	if r >= 3 {
-		for i := uint32(p); i < uint32(p+c); i++ {
-			input.Addition.IntegratedPVMMap[n].Memory.Pages[i] = &Page{
-				Value:  make([]byte, ZP),
-				Access: MemoryInaccessible,
-			}
-		}
-	}
-
-	// u_a
+	// u_a: inaccessible (r = 0), read-only (r = 1, 3), read-write (r = 2, 4)
+	access := MemoryInaccessible
 	if r == 1 || r == 3 {
-		for i := uint32(p); i < uint32(p+c); i++ {
-			input.Addition.IntegratedPVMMap[n].Memory.Pages[i] = &Page{
-				Value:  make([]byte, ZP),
-				Access: MemoryReadOnly,
-			}
-		}
+		access = MemoryReadOnly
+	} else if r == 2 || r == 4 {
+		access = MemoryReadWrite
 	}
-
-	if r == 2 || r == 4 {
-		for i := uint32(p); i < uint32(p+c); i++ {
-			input.Addition.IntegratedPVMMap[n].Memory.Pages[i] = &Page{
+	// u_v: the pages are zeroed when r < 3 and keep their contents otherwise
+	pageMap := input.Addition.IntegratedPVMMap[n].Memory.Pages
+	for i := uint32(p); i < uint32(p+c); i++ {
+		if r == 0 {
+			delete(pageMap, i)
+		} else if page, found := pageMap[i]; found && r > 2 {
+			page.Access = access
+		} else {
+			pageMap[i] = &Page{
 				Value:  make([]byte, ZP),
-				Access: MemoryReadWrite,
+				Access: access,
 			}
 		}
 	}
